@@ -911,30 +911,6 @@ impl<'a, E: quiver_core::effects::Effect> Compiler<'a, E> {
         }
     }
 
-    /// Resolve the name a name-inheriting spread (`~[...]`, `a[...]`) takes from its first
-    /// spread's source: the variable's tuple type for `...a`, or the flowing value's for `...`.
-    fn inherited_spread_name(
-        &self,
-        fields: &[ast::TupleField],
-        ripple_context: Option<&RippleContext>,
-    ) -> Option<String> {
-        let source = fields.iter().find_map(|f| match &f.value {
-            ast::FieldValue::Spread(s) => Some(s),
-            _ => None,
-        })?;
-        let source_type = match source {
-            Some(var) => scopes::lookup_variable(&self.scopes, var, &[]).map(|(ty, _)| ty)?,
-            None => ripple_context?.value_type_id,
-        };
-        match self.program.lookup_type(source_type) {
-            Some(Type::Tuple(tuple_id)) => self
-                .program
-                .lookup_tuple(*tuple_id)
-                .and_then(|t| t.name.clone()),
-            _ => None,
-        }
-    }
-
     fn compile_tuple(
         &mut self,
         name: ast::TupleName,
@@ -946,20 +922,21 @@ impl<'a, E: quiver_core::effects::Effect> Compiler<'a, E> {
     ) -> Result<(usize, Provenance), Error> {
         helpers::check_field_name_duplicates(&fields, |f| f.name.as_ref())?;
 
-        // `~[..., y]` / `a[..., y]` inherit the result name from their first spread's source.
-        let tuple_name = match name {
-            ast::TupleName::Anonymous => None,
-            ast::TupleName::Named(name) => Some(name),
-            ast::TupleName::Inherit => self.inherited_spread_name(&fields, ripple_context),
-        };
-
         // Check if this tuple contains spreads
         let contains_spread = helpers::tuple_contains_spread(&fields);
 
         if contains_spread {
-            // Use specialized compilation for tuples with spreads
-            return spread::compile_tuple_with_spread(self, tuple_name, fields, ripple_context);
+            // Use specialized compilation for tuples with spreads. `~[..., y]` / `a[..., y]`
+            // inherit the result name from their first spread's source, resolved there per
+            // variant of that source.
+            return spread::compile_tuple_with_spread(self, name, fields, ripple_context);
         }
+
+        let tuple_name = match name {
+            ast::TupleName::Named(name) => Some(name),
+            // (Without a spread there is no source to inherit a name from.)
+            ast::TupleName::Anonymous | ast::TupleName::Inherit => None,
+        };
 
         // Per-field expected types from a positionally-matching expected tuple type, used to infer
         // un-annotated function-literal fields (e.g. `map [xs, #{ $0 }, Nil]`). `bindings` solves
